@@ -1,11 +1,244 @@
-/- C10 — executable model (stub; filled in by the property's owner). -/
+/-
+C10 — memory safety. Index-arithmetic models of the native loops: every definition below
+enumerates (for concrete parameters) the indices a loop of the real C++ dereferences, each paired
+with the number of valid indices of the buffer (or axis) it is applied to. The theorems in
+`Properties/C10.lean` show, for ALL parameters of the documented domain, that every such index is
+in range. The same definitions answer the protocol lines below, so the harness can run them on
+valid parameters (expect `ok=1`) and on invalid ones (expect `ok=0`).
+
+Protocol (`c10 kind=<k> …`; every value is a decimal integer or a comma separated list):
+
+  kind=filter  shape=<ints> fshape=<ints> mode=<0..5, Mode.ofCode>
+      -> `idx=<list> ok=<0|1> n=<len>`; `idx` lists, for every array position p (C scan order, outer)
+         and every filter coordinate k (C scan order, inner), the C-order flat index of the element
+         the filter iterator reads (`ravelZ`, signed), or -1 for the border flag. `ok=1` iff every
+         non-flag coordinate list is inside `shape`.
+  kind=fastbin ny= nx= dy= dx= erosion=<0|1> [clamp=<0|1>, default 1]
+      -> `ok= n= term=`; all rows y in [0,ny) of `fast_binary_dilate_erode_2d` for ONE raw offset
+         (dy,dx) = (y_B - Cy, x_B - Cx). `clamp=0` drops the clamp of dx to [-nx,nx] (the pre-repair code).
+  kind=conv1d  n1= nf= mode=<0..5>
+      -> `ok= n= term=`; one row of `convolve1d` (fast path), N1 = n1 columns, Nf = nf weights.
+  kind=find2d  n0= n1= t0= t1= [incl=<0|1>, default 0: loops `y < N0-Nt0`; 1: `y <= N0-Nt0`]
+      -> `ok= n=`
+  kind=majority rows= cols= n=
+      -> `ok= n= term=`
+  kind=hitmiss shape=<ints> bshape=<ints> [margin=<0|1>, default 1; 0 removes the margin test]
+      -> `ok= n= term=`
+  kind=dt      n= pop=<bits, one per do-while test; missing bits = 0> [guard=<0|1>, default 1]
+      -> `ok= n= term=`; first loop of `dist_transform`: bit 1 = "`s > z[k]` is false, pop".
+         With `guard=1` the test against z[0] = -inf always succeeds (s is not NaN), whatever the bit.
+         The second loop is run with the worst-case oracle (`z[k+1] < q` true as long as k < kmax).
+  kind=bbox    ndim= maxlabel= label=
+      -> `ok= n=`; `bbox_labeled`: extrema[2*ndim*label + 2j (+1)], allocation 2*ndim*(maxlabel+1).
+  kind=foldl   maxi= label=
+      -> `ok= n=`; `labeled_foldl`: result[label] behind the guard `0 <= label < maxi`.
+  kind=com     ndim= maxlabel= label= size= lsize=
+      -> `ok= n=`; `center_of_mass` with labels: totals[label], centers[label*ndim+j], labels[i] for
+         every flat i < size (labels buffer has lsize elements).
+  any other kind -> `error=unknown-kind-<k>`
+
+`term=1` means every `for (…; i != stop; ++i)` loop of the model left through its test within the
+step budget (budget = buffer length + 1, so a run-away loop shows up as `term=0` and `ok=0`).
+-/
 import Mahotas.Model.Border
-import Mahotas.Model.DType
 namespace Mahotas.C10
 open Mahotas
 
+/-! ## accesses -/
+
+/-- one dereference: index `i` applied to a buffer (or an axis) whose valid indices are `0 … size-1` -/
+structure Acc where
+  i : Int
+  size : Int
+deriving Repr, DecidableEq
+
+def Acc.ok (a : Acc) : Bool := decide (0 ≤ a.i) && decide (a.i < a.size)
+
+def allOk (l : List Acc) : Bool := l.all Acc.ok
+
+/-- `for (i = 0; i < n; ++i)` (also `i != n` when `n ≥ 0` is known syntactically, e.g. a size) -/
+def rangeI (n : Int) : List Int := (List.range n.toNat).map Int.ofNat
+
+/-- `for (x = start; x != stop; ++x)` with a step budget: such a loop runs away when `start > stop`. -/
+def iterNe (x stop : Int) : Nat → List Int
+  | 0 => []
+  | f + 1 => if x = stop then [] else x :: iterNe (x + 1) stop f
+
+/-- did the `!=` loop leave through its test within the budget? -/
+def iterNeDone (x stop : Int) : Nat → Bool
+  | 0 => decide (x = stop)
+  | f + 1 => if x = stop then true else iterNeDone (x + 1) stop f
+
+/-- signed C-order flat index `Σ p_d · cstride_d` -/
+def ravelZ : List Nat → List Int → Int
+  | _ :: ds, p :: ps => p * (shapeSize ds : Int) + ravelZ ds ps
+  | _, _ => 0
+
+/-- `Σ stride_d · c_d` (element strides, any sign) -/
+def dot : List Int → List Int → Int
+  | s :: ss, c :: cs => s * c + dot ss cs
+  | _, _ => 0
+
+/-! ## B1 — the filter iterator (`_filters.cpp: init_filter_offsets`, `_filters.h: retrieve/set`) -/
+
+/-- `orgn = fshape[ii]/2` (no `origins` argument is ever passed by mahotas) -/
+def origin (f : Nat) : Int := Int.ofNat (f / 2)
+
+/-- coordinates of the element read at array position `p` for filter coordinate `k`
+    (`cc = coordinates[ii] - orgn + position[ii]; cc = fix_offset(mode, cc, ashape[ii])`,
+    `orgn = fshape[ii]/2`); `none` = `border_flag_value`. -/
+def neighbourIndex (m : Mode) : List Nat → List Nat → List Int → List Int → Option (List Int)
+  | a :: as, f :: fs, p :: ps, k :: ks =>
+    match fixOffset m (k - origin f + p) a, neighbourIndex m as fs ps ks with
+    | some c, some cs => some (c :: cs)
+    | _, _ => none
+  | _, _, _, _ => some []
+
+/-- the entry of the offset table (`_filters.cpp` lines 101-123): on every axis
+    `cc = fix_offset(..)`; flag → the entry is the flag; else `cc -= position; offset += astride*cc`. -/
+def tableOffset (m : Mode) : List Nat → List Int → List Nat → List Int → List Int → Option Int
+  | a :: as, s :: ss, f :: fs, p :: ps, k :: ks =>
+    match fixOffset m (k - origin f + p) a with
+    | none => none
+    | some cc =>
+      match tableOffset m as ss fs ps ks with
+      | none => none
+      | some off => some (s * (cc - p) + off)
+  | _, _, _, _, _ => some 0
+
+/-- everything a filter iterator over `shape` with a filter of shape `fshape` reads:
+    array positions in C scan order (outer), filter coordinates in C scan order (inner). -/
+def filterReads (m : Mode) (shape fshape : List Nat) : List (Option (List Int)) :=
+  (allPos shape).flatMap fun p => (allPos fshape).map fun k => neighbourIndex m shape fshape p k
+
+def filterIdx (m : Mode) (shape fshape : List Nat) : List Int :=
+  (filterReads m shape fshape).map fun
+    | some q => ravelZ shape q
+    | none => -1
+
+def filterOk (m : Mode) (shape fshape : List Nat) : Bool :=
+  (filterReads m shape fshape).all fun
+    | some q => inside shape q
+    | none => true
+
+/-! ## B2 — `fast_binary_dilate_erode_2d` (`_morph.cpp`) -/
+
+/-- lines 181-182: `if (dx > Nx) dx = Nx; if (dx < -Nx) dx = -Nx;` -/
+def fbClampDx (nx dx : Int) : Int :=
+  let dx := if dx > nx then nx else dx
+  if dx < -nx then -nx else dx
+
+/-- lines 200-203: `if ((y + dy) < 0) dy = -y; if ((y + dy) >= Ny) dy = -y+(Ny-1);` -/
+def fbRowDy (ny y dy : Int) : Int :=
+  let dy := if y + dy < 0 then -y else dy
+  if y + dy ≥ ny then -y + (ny - 1) else dy
+
+/-- row `y`, raw row offset `dy0`, column offset `dx` (as stored in `positions`):
+    row indices (`res.data(y)`, `array.data(y+dy)`) and all column indices of the border loop and of
+    the main loop (`n = Nx - |dx|` iterations from the shifted pointers). -/
+def fbAccesses (ny nx y dy0 dx : Int) (erosion : Bool) : List Acc :=
+  let dy := fbRowDy ny y dy0
+  let fuel := nx.toNat + 1
+  let n := nx - (dx.natAbs : Int)
+  let col (c : Int) := Acc.mk c nx
+  let rows := [Acc.mk y ny, Acc.mk (y + dy) ny]
+  let border : List Acc :=
+    if dx > 0 then
+      (iterNe 0 dx fuel).flatMap fun i =>
+        if erosion then [col (nx - i - 1), col (nx - 1)] else [col (nx - 1), col (nx - i - 1)]
+    else if dx < 0 then
+      (iterNe 0 (-dx) fuel).flatMap fun i =>
+        if erosion then [col i, col 0] else [col 0, col i]
+    else []
+  let outShift : Int := if erosion then (if dx < 0 then -dx else 0) else (if dx > 0 then dx else 0)
+  let inShift : Int := if erosion then (if dx > 0 then dx else 0) else (if dx < 0 then -dx else 0)
+  rows ++ border ++ (iterNe 0 n fuel).flatMap fun i => [col (outShift + i), col (inShift + i)]
+
+def fbDone (nx dx : Int) : Bool :=
+  let fuel := nx.toNat + 1
+  (if dx > 0 then iterNeDone 0 dx fuel else if dx < 0 then iterNeDone 0 (-dx) fuel else true) &&
+    iterNeDone 0 (nx - (dx.natAbs : Int)) fuel
+
+/-! ## B3 — `convolve1d` fast path, `find2d` (`_convolve.cpp`), `majority_filter` (`_morph.cpp`) -/
+
+/-- one row of `convolve1d`: columns read and written, `N1 = n1`, `Nf = nf`, `centre = Nf/2`.
+    The first loop is `for (x = centre; x != N1 - centre; ++x)` behind `if (centre >= N1) break;`;
+    the second `for (x_ = 0; x_ != 2*centre && x_ < N1; ++x_)` ranges over `[0, min(2 centre, N1))`. -/
+def conv1dAccesses (m : Mode) (n1 nf : Int) : List Acc :=
+  let c := nf / 2
+  let fuel := n1.toNat + 1
+  let first : List Acc :=
+    if c ≥ n1 then [] else
+      (iterNe c (n1 - c) fuel).flatMap fun x =>
+        (rangeI nf).map (fun j => Acc.mk (x + j - c) n1) ++ [Acc.mk (c + (x - c)) n1]
+  let second : List Acc :=
+    (rangeI (min (2 * c) n1)).flatMap fun x_ =>
+      let x := if x_ < c then x_ else (n1 - 1) - (x_ - c)
+      ((rangeI nf).filterMap fun j => (fixOffset m (x + (j - c)) n1).map fun o => Acc.mk o n1)
+        ++ [Acc.mk x n1]
+  first ++ second
+
+def conv1dDone (n1 nf : Int) : Bool :=
+  let c := nf / 2
+  if c ≥ n1 then true else iterNeDone c (n1 - c) (n1.toNat + 1)
+
+/-- `find2d`: reads `array.at(y+sy, x+sx)`, `target.at(sy,sx)`, writes `out.at(y,x)`;
+    `incl = false`: loops `y < N0-Nt0`, `x < N1-Nt1` (the tree as it is), `true`: `<=`. -/
+def find2dAccesses (n0 n1 t0 t1 : Int) (incl : Bool) : List Acc :=
+  let e : Int := if incl then 1 else 0
+  (rangeI (n0 - t0 + e)).flatMap fun y => (rangeI (n1 - t1 + e)).flatMap fun x =>
+    ((rangeI t0).flatMap fun sy => (rangeI t1).flatMap fun sx =>
+      [Acc.mk (y + sy) n0, Acc.mk (x + sx) n1, Acc.mk sy t0, Acc.mk sx t1])
+    ++ [Acc.mk y n0, Acc.mk x n1]
+
+/-- `majority_filter`: `if (rows < N || cols < N) return;` then `y != rows-N`, `x != cols-N`,
+    `dy != N`, `dx != N`; reads `input.at(y+dy,x+dx)`, writes the C-contiguous output at
+    `(y+N/2)*stride0 + N/2 + x` with `stride0 = cols`. -/
+def majorityAccesses (rows cols n : Int) : List Acc :=
+  if rows < n ∨ cols < n then [] else
+  let fr := rows.toNat + 1
+  let fc := cols.toNat + 1
+  (iterNe 0 (rows - n) fr).flatMap fun y => (iterNe 0 (cols - n) fc).flatMap fun x =>
+    ((iterNe 0 n fr).flatMap fun dy => (iterNe 0 n fc).flatMap fun dx =>
+      [Acc.mk (y + dy) rows, Acc.mk (x + dx) cols])
+    ++ [Acc.mk ((y + n / 2) * cols + n / 2 + x) (rows * cols)]
+
+def majorityDone (rows cols n : Int) : Bool :=
+  if rows < n ∨ cols < n then true else
+  iterNeDone 0 (rows - n) (rows.toNat + 1) && iterNeDone 0 (cols - n) (cols.toNat + 1) &&
+    iterNeDone 0 n (rows.toNat + 1) && iterNeDone 0 n (cols.toNat + 1)
+
+/-! ## protocol -/
+
+def b2s (b : Bool) : String := if b then "1" else "0"
+
+def report (l : List Acc) (term : Bool := true) : String :=
+  s!"ok={b2s (allOk l && term)} n={l.length} term={b2s term}"
+
 def handle (a : Args) : String :=
   match a.str "kind" with
+  | "filter" =>
+    match Mode.ofCode (a.nat "mode") with
+    | none => "error=bad-mode"
+    | some m =>
+      let shape := a.nats "shape"
+      let fshape := a.nats "fshape"
+      let idx := filterIdx m shape fshape
+      s!"idx={showInts idx} ok={b2s (filterOk m shape fshape)} n={idx.length}"
+  | "fastbin" =>
+    let ny := a.int "ny"; let nx := a.int "nx"
+    let dx := if a.int "clamp" 1 = 0 then a.int "dx" else fbClampDx nx (a.int "dx")
+    let er := a.int "erosion" ≠ 0
+    report ((rangeI ny).flatMap fun y => fbAccesses ny nx y (a.int "dy") dx er) (fbDone nx dx)
+  | "conv1d" =>
+    match Mode.ofCode (a.nat "mode") with
+    | none => "error=bad-mode"
+    | some m => report (conv1dAccesses m (a.int "n1") (a.int "nf")) (conv1dDone (a.int "n1") (a.int "nf"))
+  | "find2d" =>
+    report (find2dAccesses (a.int "n0") (a.int "n1") (a.int "t0") (a.int "t1") (a.int "incl" ≠ 0))
+  | "majority" =>
+    report (majorityAccesses (a.int "rows") (a.int "cols") (a.int "n"))
+      (majorityDone (a.int "rows") (a.int "cols") (a.int "n"))
   | k => s!"error=unknown-kind-{k}"
 
 end Mahotas.C10
